@@ -1,5 +1,5 @@
 """C10 -- scheduler core (work in progress: metadata filled in below)."""
-from props.common import contract_tasks, lemma_tasks, TRUSTED_CORE, SCHED_ASSUMPTIONS
+from props.common import other_tasks, contract_tasks, lemma_tasks, TRUSTED_CORE, SCHED_ASSUMPTIONS
 
 PROPERTY = "C10"
 
@@ -7,13 +7,13 @@ PROPERTY = "C10"
 def tasks(tier):
     return (contract_tasks("contracts.scheduler", "C10", tier=tier) + contract_tasks("contracts.sim_process", "C10", tier=tier)
             + contract_tasks("contracts.progress", "C10", tier=tier) + lemma_tasks("contracts.progress", "C10")
-            + contract_tasks("contracts.connect", "C10", tier=tier))
+            + contract_tasks("contracts.connect", "C10", tier=tier) + other_tasks("contracts.determinism_bounded", "C10", "bounded"))
 
 
 TRUSTED_BASE = TRUSTED_CORE
 ASSUMPTIONS = SCHED_ASSUMPTIONS
 NOT_COVERED = []
-LEVEL_TEXT = 'Ghost assertion C10 at BEGIN from the postcondition of wait_for_dependencies (with lazy_stepping every direct consumer has reached the step time, adapted across group boundaries) and the invariant; all interleavings; connect_one records every consumer in successors.'
+LEVEL_TEXT = 'Ghost assertion C10 at BEGIN from the postcondition of wait_for_dependencies (with lazy_stepping every direct consumer has reached the step time, adapted across group boundaries) and the invariant; all interleavings; connect_one records every consumer in successors. End to end (BOUNDED, not a proof): with lazy_stepping on, every step begin of every run of the differential harness is checked against the outstanding steps of the simulator\'s consumers.'
 DESIGN_REF = "DESIGN.md section 8 (C10)"
 LEVEL_NOTE = 'Proved for any number of simulators, any topology, any reply values and every interleaving, under the listed assumptions (evidence: assumptions, coverage.trusted_base). Trusted: pyvc encoder, the rely/guarantee meta-theorem, assumed contracts of asyncio/heapq, the time/delay algebra axioms (C08 provenance), static connection-table facts, z3/cvc5.'
 TECHNIQUE = 'contract-based deductive verification (AST->z3 VCs on the real functions, global invariant, rely/guarantee at awaits)'
